@@ -5,8 +5,10 @@ Correspondence: ONE generator of hostile variants applied to a valid token of ev
 import json, os, re
 from collections import Counter
 
-PKG = "http/tokenV2"
-HARNESS = ["http/tokenV2/zz_verif_c17_test.go", "http/tokenV2/zz_verif_export.go"]
+HARNESSES = [("http/tokenV2", ["http/tokenV2/zz_verif_c17_test.go", "http/tokenV2/zz_verif_export.go"], "c17"),
+             ("auth/api/iam", ["auth/api/iam/zz_verif_c17_test.go", "http/tokenV2/zz_verif_export.go"], "c17jar")]
+TESTS = {"c17": "TestVerifC17", "c17jar": "TestVerifC17Jar"}
+PKG, HARNESS = HARNESSES[0][0], HARNESSES[0][1]
 
 # classes of the generator for which NOTHING made a valid signature over the exact bytes, whatever the consumer
 NOBODY_SIGNED = {"alg-none": "alg none / missing", "alg-hmac": "MAC keyed with public material", "alg-mismatch": "declared algorithm does not fit the signature",
@@ -14,12 +16,14 @@ NOBODY_SIGNED = {"alg-none": "alg none / missing", "alg-hmac": "MAC keyed with p
                  "split-confusion": "the payload is not covered by any signature", "forged": "signed by a key the protocol's source does not know"}
 
 
-def verdict(c, cls, halg, by, res, allowed):
+def verdict(c, cls, halg, by, res, allowed, env=None):
     """None if the outcome is compatible with the property, else (kind, reason). Only 'accept' can violate."""
     if res == "panic":
         return None  # C19's property; reported there
     if res != "accept":
         return None
+    if c == "jar" and env != "client-publishes-signer-key":
+        return ("client-key-set-ignored", f"request object accepted although the client does not vouch for the signer key ({env})")
     if cls == "multi-sig":
         return ("multi-sig", "a token with two signatures was accepted (exactly one is required)")
     if cls in NOBODY_SIGNED:
@@ -42,7 +46,8 @@ def verdict(c, cls, halg, by, res, allowed):
 def run(ctx):
     facts = ctx.facts() or {}
     thms = ctx.build_and_audit(["NutsProofs.Props.C17"])
-    required = ["allowed_lists_asymmetric", "accept_parseJWT", "accept_parseJWS", "accept_dpop", "accept_dagTx_partial", "accept_dagTx_of_fact",
+    required = ["allowed_lists_asymmetric", "accept_parseJWT", "accept_parseJWS", "accept_dpop", "accept_dagTx", "accept_dagTx_partial", "accept_dagTx_of_fact",
+                "fact_dag_rejects_private_jwk",
                 "accept_apiToken", "accept_jar", "accept_ldProof", "header_keys_ignored", "apiToken_key_header_rejected",
                 "parseJWS_splitCompact_mode_accepts_two_uncovered", "dagTx_without_private_check_accepts_private_jwk",
                 "apiToken_atLeastOne_rule_accepts_two_signatures",
@@ -64,8 +69,8 @@ def run(ctx):
         "over the canonical re-encoding — same decoded content, counted in the evidence, not treated as a violation",
         "model scope: crypto/jwx.go (JWTKidAlg, ParseJWT, ParseJWS), crypto/dpop/dpop.go (Parse up to the claim checks), network/dag/parser.go "
         "(ParseTransaction signature discipline; the other header steps are one verdict) + verifier.go (NewTransactionSignatureVerifier), "
-        "http/tokenV2/middleware.go (whole decision), auth/api/iam/jar.go (validate) and vcr/signature/proof/jsonld.go (LDProof.Verify) — the last two "
-        "are modelled and proved about but have NO correspondence harness (their error exits and calls are pinned as regenerated facts)",
+        "http/tokenV2/middleware.go (whole decision), auth/api/iam/jar.go (validate), and vcr/signature/proof/jsonld.go (LDProof.Verify) — the last one "
+        "is modelled and proved about but has NO correspondence harness (its error exits and calls are pinned as regenerated facts)",
     ]
     ctx.assumptions += [
         "SupportedAlgorithms is the default build's list (the jwx_es256k build tag appends ES256K at init)",
@@ -73,77 +78,84 @@ def run(ctx):
         "crypto.SignatureAlgorithm returns only the jwa constants that occur in its source (regenerated list keyDerivedAlgs)",
     ]
 
-    binary = ctx.go_test_binary(PKG, HARNESS, "c17")
-    if binary is None:
-        ctx.oblige("harness-builds", False, ctx.harness_error[-1500:])
-        return
-    ctx.oblige("harness-builds", True)
-    env = {}
-    if ctx.replay:
-        env["VERIF_REPLAY"] = os.path.abspath(ctx.replay)
-    rc, log, out = ctx.run_harness(binary, "TestVerifC17", env, timeout=2400)
-    if rc != 0:
-        ctx.oblige("harness-runs", False, log[-1500:])
-        return
-    ctx.oblige("harness-runs", True)
-    ops_p, impl_p, model_p = (os.path.join(out, x) for x in ("ops.jsonl", "impl.out", "model.out"))
-    ok, err = ctx.model("C17", ops_p, model_p)
-    ctx.oblige("model-driver-runs", ok, err[-500:])
-    impl, model, bad = ctx.compare(impl_p, model_p)
-    ops = ctx.read_lines(ops_p)
-
     allowed = {"parsejwt": facts.get("supportedAlgs", []), "parsejws": facts.get("supportedAlgs", []), "dpop": facts.get("supportedAlgs", []),
+               "jar": facts.get("supportedAlgs", []),
                "dagtx": facts.get("dagAllowedAlgs", []), "apitoken": (facts.get("apiPolicy") or {}).get("acceptableAlgs", [])}
     table = {}
     distinct = set()
     seen_sig = {}
-    o_bad = 0
-    o_unsuppressed = 0
     accepted_valid = Counter()
     reenc = Counter()
-    for i, line in enumerate(impl):
-        if i >= len(ops) or not ops[i]:
+    total = total_bad = 0
+    samples = []
+    replay_c = None
+    if ctx.replay:
+        replay_c = "c17jar" if '"jar"' in open(ctx.replay).read() else "c17"
+    for (pkg, files, name) in HARNESSES:
+        if replay_c and replay_c != name:
             continue
-        op = json.loads(ops[i])
-        c, cls = op["c"], op["class"]
-        table.setdefault(c, Counter())[f"{cls}:{line}"] += 1
-        distinct.add((c, op["name"]))
-        if cls == "valid" and line == "accept":
-            accepted_valid[c] += 1
-        if cls == "reencoded" and line == "accept":
-            reenc[c] += 1
-        v = verdict(c, cls, op.get("halg", ""), op.get("by", ""), line, allowed)
-        if v:
-            o_bad += 1
-            sig = f"C17:{c}:{v[0]}"
-            if sig in seen_sig:
+        binary = ctx.go_test_binary(pkg, files, name)
+        if binary is None:
+            ctx.oblige("harness-builds:" + name, False, ctx.harness_error[-1500:])
+            continue
+        ctx.oblige("harness-builds:" + name, True)
+        env = {}
+        if ctx.replay:
+            env["VERIF_REPLAY"] = os.path.abspath(ctx.replay)
+        rc, log, out = ctx.run_harness(binary, TESTS[name], env, outdir=os.path.join(ctx.scratch, "out-" + name), timeout=2400)
+        if rc != 0:
+            ctx.oblige("harness-runs:" + name, False, log[-1500:])
+            continue
+        ctx.oblige("harness-runs:" + name, True)
+        ops_p, impl_p, model_p = (os.path.join(out, x) for x in ("ops.jsonl", "impl.out", "model.out"))
+        ok, err = ctx.model("C17", ops_p, model_p)
+        ctx.oblige("model-driver-runs:" + name, ok, err[-500:])
+        impl, model, bad = ctx.compare(impl_p, model_p)
+        ops = ctx.read_lines(ops_p)
+        total += len(impl)
+        total_bad += len(bad)
+        samples += [ops[0][:300] if ops else "", impl[0] if impl else ""]
+        o_bad = o_unsuppressed = 0
+        for i, line in enumerate(impl):
+            if i >= len(ops) or not ops[i]:
+                continue
+            op = json.loads(ops[i])
+            c, cls = op["c"], op["class"]
+            table.setdefault(c, Counter())[f"{cls}:{line}"] += 1
+            distinct.add((c, op["name"]))
+            if cls == "valid" and line == "accept":
+                accepted_valid[c] += 1
+            if cls == "reencoded" and line == "accept":
+                reenc[c] += 1
+            v = verdict(c, cls, op.get("halg", ""), op.get("by", ""), line, allowed, op.get("env"))
+            if v:
+                o_bad += 1
+                sig = f"C17:{c}:{v[0]}"
+                if sig not in seen_sig:
+                    seen_sig[sig] = 1 if ctx.violation(sig, f"consumer {c}, variant '{op['name']}' (class {cls}, header alg {op.get('halg')!r}, signed by {op.get('by')}): {v[1]}",
+                                                       f"{c}-{v[0]}.jsonl", json.dumps({"c": c, "name": op["name"], "class": cls})) else 0
                 o_unsuppressed += seen_sig[sig]
-            else:
-                seen_sig[sig] = 1 if ctx.violation(sig, f"consumer {c}, variant '{op['name']}' (class {cls}, header alg {op.get('halg')!r}, signed by {op.get('by')}): {v[1]}",
-                              f"{c}-{v[0]}.jsonl", json.dumps({"c": c, "name": op["name"], "class": cls})) else 0
-                o_unsuppressed += seen_sig[sig]
-    ctx.oblige("oracle:accepted-tokens-obey-the-discipline(impl)", o_unsuppressed == 0,
-               f"{o_bad} accepted hostile variants, {o_unsuppressed} not covered by an open known finding")
+        ctx.oblige(f"oracle:accepted-tokens-obey-the-discipline(impl):{name}", o_unsuppressed == 0,
+                   f"{o_bad} accepted hostile variants, {o_unsuppressed} not covered by an open known finding")
+        if bad:
+            i = bad[0]
+            detail = (f"first differing line {i}\nop   : {ops[i][:900] if i < len(ops) else None}\nimpl : {impl[i][:100] if i < len(impl) else None}\n"
+                      f"model: {model[i][:100] if i < len(model) else None}")
+            ctx.oblige(f"correspondence:{name}:model=impl", False, f"{len(bad)} of {len(impl)} lines differ; " + detail[:1200])
+            if o_bad == 0 and i < len(ops):
+                op = json.loads(ops[i])
+                with open(os.path.join(ctx.replay_dir(), f"correspondence-{name}.jsonl"), "w") as f:
+                    f.write(json.dumps({"c": op["c"], "name": op["name"], "class": op["class"]}) + "\n")
+                ctx.unproved([f"correspondence C17/{name} (model.out != impl.out)"], detail + f"\nreplay: {ctx.replay_dir()}/correspondence-{name}.jsonl")
+        else:
+            ctx.oblige(f"correspondence:{name}:model=impl", True, f"{len(impl)} lines equal")
     if not ctx.replay:
-        for c in ("parsejwt", "parsejws", "dpop", "dagtx", "apitoken"):
+        for c in ("parsejwt", "parsejws", "dpop", "dagtx", "apitoken", "jar"):
             ctx.oblige(f"non-vacuous:{c}-accepts-its-valid-token(impl)", accepted_valid[c] > 0, str(dict(accepted_valid)))
 
-    if bad:
-        i = bad[0]
-        detail = (f"first differing line {i}\nop   : {ops[i][:900] if i < len(ops) else None}\nimpl : {impl[i][:100] if i < len(impl) else None}\n"
-                  f"model: {model[i][:100] if i < len(model) else None}")
-        ctx.oblige("correspondence:model=impl", False, f"{len(bad)} of {len(impl)} lines differ; " + detail[:1200])
-        if o_bad == 0 and i < len(ops):
-            op = json.loads(ops[i])
-            with open(os.path.join(ctx.replay_dir(), "correspondence.jsonl"), "w") as f:
-                f.write(json.dumps({"c": op["c"], "name": op["name"], "class": op["class"]}) + "\n")
-            ctx.unproved(["correspondence C17 (model.out != impl.out)"], detail + f"\nreplay: {ctx.replay_dir()}/correspondence.jsonl")
-    else:
-        ctx.oblige("correspondence:model=impl", True, f"{len(impl)} lines equal")
-
-    ctx.cov["evaluations"] = len(impl)
+    ctx.cov["evaluations"] = total
     ctx.cov["distinct_nontrivial"] = len(distinct)
-    ctx.cov["traces_validated_against_impl"] = len(impl) - len(bad)
+    ctx.cov["traces_validated_against_impl"] = total - total_bad
     ctx.cov["rule"] = ("one generator (vHostile) applied to a valid token of each consumer kind, per signer key (P-256, Ed25519, RSA-2048, P-384) and round: "
                        "alg -> none (7 spellings / missing), HS256/384/512 keyed with 5 encodings of the public key, 10 other algorithm names, properly signed "
                        "weaker RSA algorithms; JSON serialisation flattened/general with 0, 1, 2 signatures (valid+attacker in both orders, valid+valid, "
@@ -152,8 +164,9 @@ def run(ctx):
                        "victim's kid); kid of another party, kid removed, signed by attacker / by another party; N flipped bytes at random positions of the three "
                        "segments (same-bytes flips classed as re-encodings); re-encodings (padding, std alphabet, 4th segment, trailing dot, white space, "
                        "truncations, re-serialised header). Consumers: crypto.ParseJWT, crypto.ParseJWS, dpop.Parse, dag.ParseTransaction+signature verifier "
-                       "(kid form and jwk form), tokenV2 middleware. accept/reject vs model; direct oracle on the implementation's accepts. "
+                       "(kid form and jwk form), tokenV2 middleware, and iam jar.validate (in-package, DID resolver + client key set mocked, 5 client environments per "
+                       "variant: publishes the signer key / another key under the kid / not the kid / configuration unavailable / client_id mismatch). accept/reject vs model; direct oracle on the implementation's accepts. "
                        "distinct_nontrivial = distinct (consumer, variant name)")
     ctx.cov["input_distribution"] = {c: dict(t) for c, t in table.items()}
     ctx.cov["reencodings_accepted"] = dict(reenc)
-    ctx.cov["samples"] = [ops[0][:300] if ops else "", impl[0] if impl else ""]
+    ctx.cov["samples"] = samples
